@@ -557,3 +557,14 @@ func (n *Node) WatchSendQueue(sess any, stop <-chan struct{}) (max, capacity int
 		}
 	}
 }
+
+// SetNextSessionId positions the front's connection-id allocator: the next connection gets id
+// (hook ClientSessions.VerifSetNextId; the allocator wraps at 2^32 and skips 0).
+func (n *Node) SetNextSessionId(id uint32) error {
+	f := n.Front()
+	return f.Exec(func() {
+		if sc, _ := f.GetComponent("sessions").(*impls.SessionsComponent); sc != nil {
+			sc.GetSessions().VerifSetNextId(id - 1)
+		}
+	})
+}
